@@ -92,6 +92,7 @@ package kvql
 //
 //@ func (p *ProjectionPlan) Batch(ctx *ExecuteCtx) (ret [][]Column, err error)
 //@   props C05 C03 C13
+//@   ensures[C03] ownrows: err == nil ==> isnil(ret) || fresh(ret)
 //@   ensures[C13] norows: err != nil ==> len(ret) == 0
 //@   ghost r Int
 //@   requires wfProj(p) && ctx != nil && !failed && wfCursor(p.ChildPlan)
